@@ -1,7 +1,7 @@
 #!/bin/bash
 # usage: run_seed.sh <seed-dir> <prop> [<prop> ...]
 # Applies the seeded change to /repo, runs the quick checks of the given properties, reverts.
-SD=$1; shift
+SD=$(realpath $1); shift
 cd /verif
 git -C /repo diff --quiet || { echo "/repo is dirty"; exit 2; }
 git -C /repo apply $SD/patch.diff || exit 2
